@@ -66,7 +66,7 @@ type Prod struct {
 	HasPos    bool
 	HasEndPos bool
 	HasTokens bool
-	PosStyle  int // 0: direct Pos/EndPos/Tokens fields, 1: embedded PosMixin, 2: NamedPos position type
+	PosStyle  int // 0: direct Pos/EndPos/Tokens fields, 1: embedded PosMixin, 2: NamedPos position type, 3: mixin three embedded structs deep
 	UnionSlot int // which static interface type carries this union
 	Static    any // non-nil: zero value of a statically declared Go type (recursive families)
 }
@@ -503,6 +503,8 @@ func (p *Prod) Source() string {
 		switch {
 		case q.PosStyle == 1 && q.HasPos:
 			sb.WriteString(" PosMixin;")
+		case q.PosStyle == 3 && q.HasPos:
+			sb.WriteString(" PosDeep2;")
 		case q.PosStyle == 2 && q.HasPos:
 			sb.WriteString(" Pos NamedPos; EndPos NamedPos; Tokens []lexer.Token;")
 		default:
